@@ -14,13 +14,18 @@
     theorem holds for every content and therefore every earlier history of the OTHER objects.
   * `public_results_independent`: every public (length-like, status-like) result is the same whatever the secret contents
     of any object.
-  Together: a call cannot communicate with another call except through blocks both are given; two calls on disjoint
-  objects write disjoint blocks.
-  Partial: that the RESULT of a call is the same function of its own blocks whatever the other blocks contain is proved
-  only in the non-interference sense above (public data), not as a full frame-independence theorem; real thread
-  interleavings of compiled code are outside the model (observed under TSan).
+  * `independent` / `call_independent` (from `TJ.MiniC.exec_local`): a completed call gives the same signal, the same
+    results and the same trace in EVERY memory that agrees with the original one on the blocks its trace touches — whatever
+    the other blocks hold, hence whatever unrelated calls ran before; and it leaves those other blocks as they were.
+  * `commute` / `calls_commute`: two completed calls that take no entropy and where neither writes a block the other touches
+    produce, in the opposite order, the same results, the same traces and the same final memory — the serial-equivalence
+    content of "thread-safe on distinct objects" for every pair of calls and every state.
+  Together: a call cannot communicate with another call except through blocks both are given.
+  Outside the model: real thread interleavings of compiled code (observed under TSan), and the entropy source, which is
+  shared by nature (the commutation theorem excludes calls that consume it).
 -/
 import TJ.MiniC.Frame
+import TJ.MiniC.Local
 import TJ.Props.C07
 namespace TJ.Props.C19
 open TJ.MiniC
@@ -62,6 +67,143 @@ theorem untouched_by_both (fuel f1 f2 : Nat) (r1 r2 : Bool) (a1 a2 : List LVal) 
   obtain ⟨_, n1, hl1, hm1⟩ := footprint fuel f1 r1 a1 st g1 e1 st1 h1
   obtain ⟨_, n2, hl2, hm2⟩ := footprint fuel f2 r2 a2 st1 g2 e2 st2 h2
   rw [hm2 b (hb2 n2 hl2), hm1 b (hb1 n1 hl1)]
+
+/-- the blocks an execution with trace `new` read or wrote -/
+def Touched (new : List Ev) (b : Nat) : Prop := ∃ e ∈ new, b ∈ evTouches e
+/-- the blocks it wrote -/
+def Written (new : List Ev) (b : Nat) : Prop := ∃ e ∈ new, b ∈ evWrites e
+
+theorem evWrites_sub (e : Ev) (b : Nat) (h : b ∈ evWrites e) : b ∈ evTouches e := by
+  cases e with
+  | wr p n => exact h
+  | cp d s n =>
+    simp only [evWrites, evTouches] at h ⊢
+    split at h
+    · cases h
+    · rename_i hn
+      simp only [hn, if_false]
+      rw [List.mem_singleton.mp h]
+      exact List.mem_cons_self
+  | set d n => exact h
+  | ent p n => exact h
+  | br _ => cases h
+  | rd _ _ => cases h
+  | icall _ => cases h
+
+theorem written_touched {new : List Ev} {b : Nat} (h : Written new b) : Touched new b := by
+  obtain ⟨e, he, hb⟩ := h
+  exact ⟨e, he, evWrites_sub e b hb⟩
+
+theorem touch_touched (new : List Ev) : Touch (Touched new) new := fun e he b hb => ⟨e, he, hb⟩
+
+theorem notWritten_iff (new : List Ev) (b : Nat) : NotWritten new b ↔ ¬ Written new b := by
+  constructor
+  · intro h ⟨e, he, hb⟩; exact h e he hb
+  · intro h e he hb; exact h ⟨e, he, hb⟩
+
+/-- **Independence.**  If a statement (in particular a call) completes in `st1` with trace `new`, then in every state `st2` with the same
+    number of blocks and the same entropy script that agrees with `st1` on the blocks `new` touches, it completes with the same
+    signal, the same environment (all results), the same trace; afterwards the two memories agree on the touched blocks, and every
+    other block of `st2` is exactly as it was. -/
+theorem independent (prog : Program) (fuel : Nat) (s : Stmt) (env : Env) (st1 st2 : St) (sig : Sig) (env' : Env) (st1' : St) (new : List Ev)
+    (h1 : exec prog fuel s env st1 = .ok sig env' st1') (hnew : st1'.leak = new ++ st1.leak)
+    (hsz : st1.mem.size = st2.mem.size) (hent : st1.ent = st2.ent) (hagree : ∀ b, Touched new b → st1.mem[b]? = st2.mem[b]?) :
+    ∃ st2', exec prog fuel s env st2 = .ok sig env' st2' ∧ st2'.leak = new ++ st2.leak ∧ st2'.ent = st1'.ent ∧
+      st2'.mem.size = st2.mem.size ∧
+      (∀ b, Touched new b → st2'.mem[b]? = st1'.mem[b]?) ∧ (∀ b, ¬ Written new b → st2'.mem[b]? = st2.mem[b]?) := by
+  have hl := exec_local (Touched new) prog fuel s env st1 st2 ⟨hsz, hent, hagree⟩
+  rw [h1] at hl
+  obtain ⟨st2', h2, hl2, hs⟩ := hl new hnew (touch_touched new)
+  have hf := exec_frame prog fuel s env st2
+  rw [h2] at hf
+  obtain ⟨hsz2, new2, hn2, hm2⟩ := hf
+  have : new2 = new := by
+    have : new2 ++ st2.leak = new ++ st2.leak := by rw [← hn2, hl2]
+    exact List.append_cancel_right this
+  subst this
+  exact ⟨st2', h2, hl2, hs.ent.symm, hsz2, fun b hb => (hs.mem b hb).symm, fun b hb => hm2 b ((notWritten_iff _ b).mpr hb)⟩
+
+/-- **Commutation.**  Two completed executions (in particular two calls) that do not consume entropy and where neither writes a block the
+    other touches give, in the opposite order, the same signals, the same environments (all results), the same traces and the same
+    final memory. -/
+theorem commute (prog : Program) (fa fb : Nat) (sa sb : Stmt) (enva envb : Env) (st stA stAB : St)
+    (sigA sigB : Sig) (envA' envB' : Env) (newA newB : List Ev)
+    (hA : exec prog fa sa enva st = .ok sigA envA' stA) (hlA : stA.leak = newA ++ st.leak)
+    (hB : exec prog fb sb envb stA = .ok sigB envB' stAB) (hlB : stAB.leak = newB ++ stA.leak)
+    (heA : stA.ent = st.ent) (heB : stAB.ent = stA.ent)
+    (hd1 : ∀ b, Touched newA b → ¬ Written newB b) (hd2 : ∀ b, Touched newB b → ¬ Written newA b) :
+    ∃ stB stBA, exec prog fb sb envb st = .ok sigB envB' stB ∧ stB.leak = newB ++ st.leak ∧
+      exec prog fa sa enva stB = .ok sigA envA' stBA ∧ stBA.leak = newA ++ stB.leak ∧
+      stBA.mem = stAB.mem ∧ stBA.ent = stAB.ent := by
+  -- frame of A from st and of B from stA
+  have fA := exec_frame prog fa sa enva st
+  rw [hA] at fA
+  obtain ⟨szA0, nA, hnA, hmA⟩ := fA
+  have enA : nA = newA := by
+    have : nA ++ st.leak = newA ++ st.leak := by rw [← hnA, hlA]
+    exact List.append_cancel_right this
+  subst enA
+  have fB := exec_frame prog fb sb envb stA
+  rw [hB] at fB
+  obtain ⟨szB0, nB, hnB, hmB⟩ := fB
+  have enB : nB = newB := by
+    have : nB ++ stA.leak = newB ++ stA.leak := by rw [← hnB, hlB]
+    exact List.append_cancel_right this
+  subst enB
+  -- B first
+  obtain ⟨stB, hB', hlB', entB, szB, agreeB, untouchedB⟩ := independent prog fb sb envb stA st sigB envB' stAB nB hB hlB szA0 heA
+    (fun b hb => hmA b ((notWritten_iff _ b).mpr (hd2 b hb)))
+  -- then A
+  obtain ⟨stBA, hA', hlA', entA, szA, agreeA, untouchedA⟩ := independent prog fa sa enva st stB sigA envA' stA nA hA hlA szB.symm
+    (by rw [entB, heB, heA]) (fun b hb => (untouchedB b (hd1 b hb)).symm)
+  refine ⟨stB, stBA, hB', hlB', hA', hlA', ?_, by rw [entA, heB]⟩
+  apply Array.ext_getElem?
+  intro b
+  by_cases hTA : Touched nA b
+  · rw [agreeA b hTA, hmB b ((notWritten_iff _ b).mpr (hd1 b hTA))]
+  · by_cases hTB : Touched nB b
+    · rw [untouchedA b (hd2 b hTB), agreeB b hTB]
+    · have hWA : ¬ Written nA b := fun h => hTA (written_touched h)
+      have hWB : ¬ Written nB b := fun h => hTB (written_touched h)
+      rw [untouchedA b hWA, untouchedB b hWB, hmB b ((notWritten_iff _ b).mpr hWB), hmA b ((notWritten_iff _ b).mpr hWA)]
+
+
+/-- for calls of the regenerated library -/
+theorem call_independent (fuel f : Nat) (hasRet : Bool) (args : List LVal) (st1 st2 : St) (sig : Sig) (env' : Env) (st1' : St) (new : List Ev)
+    (h1 : callFun TJ.Gen.MiniC.prog fuel f hasRet args st1 = .ok sig env' st1') (hnew : st1'.leak = new ++ st1.leak)
+    (hsz : st1.mem.size = st2.mem.size) (hent : st1.ent = st2.ent) (hagree : ∀ b, Touched new b → st1.mem[b]? = st2.mem[b]?) :
+    ∃ st2', callFun TJ.Gen.MiniC.prog fuel f hasRet args st2 = .ok sig env' st2' ∧ st2'.leak = new ++ st2.leak ∧ st2'.ent = st1'.ent ∧
+      st2'.mem.size = st2.mem.size ∧
+      (∀ b, Touched new b → st2'.mem[b]? = st1'.mem[b]?) ∧ (∀ b, ¬ Written new b → st2'.mem[b]? = st2.mem[b]?) :=
+  independent TJ.Gen.MiniC.prog fuel _ _ st1 st2 sig env' st1' new h1 hnew hsz hent hagree
+
+theorem calls_commute (fa fb f1 f2 : Nat) (r1 r2 : Bool) (a1 a2 : List LVal) (st stA stAB : St)
+    (sigA sigB : Sig) (envA' envB' : Env) (newA newB : List Ev)
+    (hA : callFun TJ.Gen.MiniC.prog fa f1 r1 a1 st = .ok sigA envA' stA) (hlA : stA.leak = newA ++ st.leak)
+    (hB : callFun TJ.Gen.MiniC.prog fb f2 r2 a2 stA = .ok sigB envB' stAB) (hlB : stAB.leak = newB ++ stA.leak)
+    (heA : stA.ent = st.ent) (heB : stAB.ent = stA.ent)
+    (hd1 : ∀ b, Touched newA b → ¬ Written newB b) (hd2 : ∀ b, Touched newB b → ¬ Written newA b) :
+    ∃ stB stBA, callFun TJ.Gen.MiniC.prog fb f2 r2 a2 st = .ok sigB envB' stB ∧ stB.leak = newB ++ st.leak ∧
+      callFun TJ.Gen.MiniC.prog fa f1 r1 a1 stB = .ok sigA envA' stBA ∧ stBA.leak = newA ++ stB.leak ∧
+      stBA.mem = stAB.mem ∧ stBA.ent = stAB.ent :=
+  commute TJ.Gen.MiniC.prog fa fb _ _ _ _ st stA stAB sigA sigB envA' envB' newA newB hA hlA hB hlB heA heB hd1 hd2
+
+/-- non-vacuity of `commute`: two stores to different blocks, executed; the hypotheses hold and are not trivially false -/
+def demoSt : St := { mem := #[{ bytes := #[(0, .pub), (0, .pub)], base := 0 }, { bytes := #[(0, .pub)], base := 0 }], ent := [], leak := [] }
+def stA : Stmt := .store .u8 (.lit (mkPtr 0 1)) (.lit 7)
+def stB : Stmt := .store .u8 (.lit (mkPtr 1 0)) (.lit 9)
+
+example : ∃ stA' stAB', exec [] 1 stA #[] demoSt = .ok .normal #[] stA' ∧ stA'.leak = [Ev.wr (mkPtr 0 1) 1] ++ demoSt.leak ∧
+    exec [] 1 stB #[] stA' = .ok .normal #[] stAB' ∧ stAB'.leak = [Ev.wr (mkPtr 1 0) 1] ++ stA'.leak ∧
+    (∀ b, Touched [Ev.wr (mkPtr 0 1) 1] b → ¬ Written [Ev.wr (mkPtr 1 0) 1] b) := by
+  refine ⟨_, _, rfl, rfl, rfl, rfl, ?_⟩
+  intro b ⟨e, he, hb⟩ ⟨e', he', hb'⟩
+  rw [List.mem_singleton.mp he] at hb
+  rw [List.mem_singleton.mp he'] at hb'
+  simp only [evTouches, evWrites, List.mem_singleton] at hb hb'
+  rw [hb] at hb'
+  revert hb'
+  decide
 
 /-- non-vacuity: `NotWritten` distinguishes blocks — a store event names exactly its block -/
 example : NotWritten [Ev.wr (mkPtr 3 0) 4, Ev.rd (mkPtr 5 8) 1] 5 := by
